@@ -164,7 +164,7 @@ fn gen_structured_halt(rng: &mut Rng) -> Case {
     if toks.iter().any(|t| t == "D") {
         tags.push("fn");
     }
-    Case { req: format!("c13s {} {} 6000", toks.join(";"), vars), in_domain: true, nontrivial: !sites.is_empty(), tags }
+    Case { req: format!("c13s {} {} 200000", toks.join(";"), vars), in_domain: true, nontrivial: !sites.is_empty(), tags }
 }
 
 /// loops that never end by themselves: goto, while over a value, while over a command
